@@ -367,6 +367,25 @@ PROPS["C17"] = dict(
     thorough=[c17(4, 3000)],
 )
 
+C19H = ["wsserver/c19_transportws.go", "wsserver/c19_graphqlws.go", "common/zz_json.go"]
+
+def c19(proto, k, sched, timeout=1800):
+    entry, name, n = ("VerifC19TransportWS", "H-C19a", 14) if proto == 0 else ("VerifC19GraphQLWS", "H-C19b", 11)
+    return spec("%s[%d,%d]" % (name, k, sched), "./subscription/websocket", C19H, entry, [k, sched],
+                "%d client messages, each solver-chosen from a %d-message alphabet (connection_init with/without payload, subscribe/start of a subscription, a query, a failing query, a mutation, with duplicate ids, bad payload, complete/stop of known and unknown ids, ping, pong, terminate, unknown type, truncated JSON, JSON array) through the real UniversalProtocolHandler, %s protocol handler, event handler, message reader/writer and ExecutorEngine; stub executor pool and scripted transport client; the client reads only when every server goroutine is blocked%s" % (k, n, "graphql-transport-ws" if proto == 0 else "graphql-ws", "; goroutine schedules of engine and handler explored with <=1 preemption" if sched else ""),
+                ["connection closed by the server", "connection stayed open"] if proto == 0 else ["trace accepted"], dir="execution", timeout=timeout, preempt=1)
+
+PROPS["C19"] = dict(
+    title="WebSocket server obeys graphql-ws / graphql-transport-ws on any message sequence",
+    level_text="bounded symbolic execution of the real WebSocket subscription server stack below the network connection: every sequence of k messages over the alphabet is explored, the unified trace of client messages, server messages and close codes must be accepted by a reference protocol state machine (ack once after init; 4401 subscribe before init, 4429 second init, 4400 unknown type or JSON syntax error, 4409 duplicate id, no other close; pong for ping; operation output only after init, only for subscribed ids, nothing after the id's terminal message, every query/mutation terminated exactly once; handler returns when the client is gone)",
+    level_note="bounds: k<=3 (quick) / 4 (thorough) messages from a fixed alphabet; timers never fire, so the connection-init timeout (4408), keep-alive/heartbeat, subscription update ticks and the read-error timeout are not exercised; the gobwas/ws framing and net.Conn client are below the stubbed TransportClient; encoding/json is the engine's model; trusted base: gosym scheduler, reference state machine",
+    design_ref="DESIGN.md §4 C19",
+    assumptions=["timers never fire", "the client does not send while the server still has runnable work (reads happen at quiescence)"],
+    stubs=["subscription.TransportClient: scripted client recording writes and close reasons", "subscription.ExecutorPool/Executor: stub deciding operation type and result from the query text", "encoding/json, time.ParseDuration: engine models"],
+    quick=[c19(0, 3, 0), c19(1, 3, 0), c19(0, 2, 1), c19(1, 2, 1)],
+    thorough=[c19(0, 4, 0, 3000), c19(1, 4, 0, 3000), c19(0, 3, 1, 3000)],
+)
+
 NOT_APPLICABLE = {
     "C20": "The gRPC datasource's data path runs on protoreflect/dynamicpb/protocompile (reflection, unsafe, generated descriptors); no SSA->SMT encoding of it is within reach of the engine built here, and the property is about exactly that path (DESIGN.md §5).",
 }
